@@ -1756,9 +1756,11 @@ int replyh(struct server *server, uint8_t *buf, int len) {
     }
 
     /* reencrypt tunnel-password RFC2868 */
-    attr = radmsg_gettype(msg, RAD_Attr_Tunnel_Password);
-    if (attr && msg->code == RAD_Access_Accept) {
+    for (node = msg->code == RAD_Access_Accept ? list_first(msg->attrs) : NULL; node; node = list_next(node)) {
         uint8_t newsalt[2];
+        attr = (struct tlv *)node->data;
+        if (attr->t != RAD_Attr_Tunnel_Password)
+            continue;
         debug(DBG_DBG, "replyh: found tunnelpwdattr with value length %d", attr->l);
         if (!RAND_bytes(newsalt, 2))
             goto errunlock;
